@@ -511,11 +511,11 @@ func init() {
 	Register(&PropSpec{
 		ID: "C18", Level: "exploration",
 		Rule: "case = a C01/C03/C06/C07/C12/C16 history (ledger operations, undelegations, opt-outs, key replacements, downtime slashing, evidence, oracle rounds, epoch jumps, restarts) on node A with an export point at a random committed height (mid-epoch, mid oracle window, with pending undelegations and queue entries); the application's own export path produces the document; every listed module's part must pass its ValidateGenesis; a fresh node B runs InitChain on it (exported initial height and consensus params); the byte-level dumps of the assets, delegation, operator, dogfood, epochs, oracle, exomint and feedistribution stores of A (at the export height) and B must be equal; B's validator set must be the set the original chain uses next; the listed modules exported again from B must equal the first document; then the blocks A executed after the export (operations, epoch ends, no downtime/evidence) are executed on B and after every block the listed stores, validator updates and transaction outcomes must agree; non-trivial = export with >= 1 pending undelegation or dogfood queue entry, >= 50 keys compared and >= 10 blocks continued",
-		Assumptions: []string{"the new chain's consensus engine supplies no commit info or evidence about heights before its first block, so none is injected after the export point", "native-restaking (NST) tokens are not part of these histories (they are not part of the C01 workload either)", "the dogfood module's historical-info entries (block-history cache for IBC) are not compared: the SDK's staking module does not export them either and nothing in the statement's behaviour clause depends on them", "a stored undelegation hold count of zero is the same state as no stored count", "the AVS module is not among the listed modules: only the chain's own (dogfood) AVS exists in these histories", "A and B run one after the other in one OS process (the oracle's package-level state is reset in between)"},
+		Assumptions: []string{"the new chain's consensus engine supplies no commit info or evidence about heights before its first block, so none is injected after the export point", "the dogfood module's historical-info entries (block-history cache for IBC) are not compared: the SDK's staking module does not export them either and nothing in the statement's behaviour clause depends on them", "a stored undelegation hold count of zero is the same state as no stored count", "the AVS module is not among the listed modules: only the chain's own (dogfood) AVS exists in these histories", "A and B run one after the other in one OS process (the oracle's package-level state is reset in between)"},
 		Real: []string{"app.ExportAppStateAndValidators, every module's ExportGenesis / ValidateGenesis / InitGenesis", "InitChain with a non-default initial height"},
 		QuickRuns:   200, ThoroughRuns: 3000,
 		GenConfig: func(p *PRNG, tier string) Config {
-			c := SwarmConfig(p, SwarmOpts{EpochSecs: []int64{15, 20, 30}})
+			c := SwarmConfig(p, SwarmOpts{WithNST: true, EpochSecs: []int64{15, 20, 30}})
 			c.HugeAmounts = false
 			return c
 		},
